@@ -468,3 +468,18 @@ MUTANTS += [
 SILENT += [
     Silent("lists-from-constructor-calls", DEFER, _Q_INIT, "        self.waiting = list()\n        self.pending = list()\n"),
 ]
+
+SILENT += [
+    # deliver / take halves in private helpers, both limit tests in one shared static helper taking the list and the limit
+    Silent("halves-and-limit-test-in-helpers", DEFER, _PUT,
+           "        if self.waiting:\n            self._serveOldest(obj)\n        elif self._roomIn(self.pending, self.size):\n            self.pending.append(obj)\n"
+           "        else:\n            raise QueueOverflow()\n\n    @staticmethod\n    def _roomIn(held, most):\n        return most is None or len(held) < most\n\n"
+           "    def _serveOldest(self, thing):\n        self.waiting.pop(0).callback(thing)\n",
+           more=[(DEFER, "        elif self.backlog is None or len(self.waiting) < self.backlog:", "        elif self._roomIn(self.waiting, self.backlog):")]),
+    # a None limit normalised to an infinite sentinel, pop(0) spelled as read + del
+    Silent("infinite-sentinel-for-no-limit", DEFER, _PUT,
+           "        most = _UNBOUNDED if self.size is None else self.size\n        if self.waiting:\n            first = self.waiting[0]\n            del self.waiting[0]\n"
+           "            first.callback(obj)\n        elif len(self.pending) < most:\n            self.pending.append(obj)\n        else:\n            raise QueueOverflow()\n",
+           more=[(DEFER, "class QueueOverflow(Exception):", "_UNBOUNDED = float(\"inf\")\n\n\nclass QueueOverflow(Exception):"),
+                 (DEFER, "            return succeed(self.pending.pop(0))\n", "            oldest = self.pending[0]\n            del self.pending[0]\n            return succeed(oldest)\n")]),
+]
